@@ -206,6 +206,7 @@ func TestC12_Plans(t *testing.T) {
 					{Kind: "check", Lang: int64(implLang[l]), Text: text(ref.Encode(tableEntropiesSmall(round*31+(g+1)%8), ref.Lang((g+1+round)%int(ref.NumLangs)))), Repeat: 400},
 					{Kind: "seed", Text: text(ref.Encode(tableEntropiesSmall(g%2), ref.English)), Pass: text([]string{"", "TREZOR"}[g%2]), Repeat: 6},
 					{Kind: "seed", Text: text(gen.FullWidth("abandon ") + strconv.Itoa(g)), Pass: "x", Repeat: 3},
+					{Kind: "seed", Text: "abandon", Pass: text("\u00e9t\u00e9 \uff21\ufb01 \ud55c\uae00 " + strconv.Itoa(g)), Repeat: 4},
 				})
 			}
 			prelude := phase{Goroutines: [][]op{{
